@@ -173,3 +173,58 @@ pub fn head_of<A: Codec>(seq: &Seq<A>) -> Option<u64> {
     let v = serde_json::to_value(seq).ok()?;
     v.get("bv")?.get("head")?.get("index")?.as_u64()
 }
+
+/// Does the real sequence hold exactly the symbols of the model list?
+/// (length, every `get(i)`, nothing past the end, and the displayed text)
+pub fn matches<A: Codec>(s: &SeqSlice<A>, want: &[A]) -> bool {
+    if s.len() != want.len() {
+        return false;
+    }
+    for (i, w) in want.iter().enumerate() {
+        if s.get(i) != Some(*w) {
+            return false;
+        }
+    }
+    if s.get(want.len()).is_some() {
+        return false;
+    }
+    let text: String = want.iter().map(|a| a.to_char()).collect();
+    s.to_string() == text
+}
+
+/// Short rendering of a real sequence for violation details.
+pub fn render<A: Codec>(s: &SeqSlice<A>) -> String {
+    let t = s.to_string();
+    if t.len() > 140 {
+        format!("{}…(len {})", &t[..140], s.len())
+    } else {
+        format!("{t} (len {})", s.len())
+    }
+}
+
+pub fn show_cut<A: Codec>(v: &[A]) -> String {
+    let t = show(v);
+    if t.len() > 140 {
+        format!("{}…(len {})", &t[..140], v.len())
+    } else {
+        t
+    }
+}
+
+/// `SeqArray<A, N, W>` built from model words (the representation `dna!`/`iupac!` produce); bits
+/// past the N symbols are filled with a pattern so that an over-read shows.
+pub fn array_of<A: Codec, const N: usize, const W: usize>(content: &[A]) -> SeqArray<A, N, W> {
+    assert_eq!(content.len(), N);
+    assert!(N * A::BITS as usize <= 64 * W);
+    let w = crate::model::pack_words(&codes(content), A::BITS as usize);
+    let mut words = [0usize; W];
+    for (i, x) in w.iter().enumerate() {
+        words[i] = *x as usize;
+    }
+    for b in N * A::BITS as usize..64 * W {
+        if b % 3 != 0 {
+            words[b / 64] |= 1 << (b % 64);
+        }
+    }
+    SeqArray { _p: std::marker::PhantomData, ba: bitvec::array::BitArray::new(words) }
+}
